@@ -197,7 +197,7 @@ pub fn all_ok(o: &Outcome) -> bool {
 }
 
 /// Checked no-growth model of std's Vec for the harnesses (Kani stubs, `-Z stubbing`).
-/// The assembler's buffers get a fixed capacity up front (32 or 176 elements, chosen per
+/// The assembler's buffers get a fixed capacity up front (32 .. 176 elements, chosen per
 /// harness); exceeding it is an *asserted*
 /// check (a harness whose code does not fit is reported as inconclusive, never silently
 /// truncated).  This removes the "reallocate at a symbolic length" case split that makes
@@ -210,6 +210,15 @@ pub mod vecmodel {
     /// scaffolding with a short filler, 176 for the longest filler (128 + 7) of the branch units
     pub fn new_32<T>() -> Vec<T> {
         Vec::with_capacity(32)
+    }
+    pub fn new_64<T>() -> Vec<T> {
+        Vec::with_capacity(64)
+    }
+    pub fn new_96<T>() -> Vec<T> {
+        Vec::with_capacity(96)
+    }
+    pub fn new_128<T>() -> Vec<T> {
+        Vec::with_capacity(128)
     }
     pub fn new_176<T>() -> Vec<T> {
         Vec::with_capacity(176)
